@@ -273,29 +273,33 @@ def oracle_memory(case):
         return oracle({k: v for k, v in case.items() if k != "at_step"})
     c = {k: v for k, v in case.items() if k != "at_step"}
     c["steps"] = at + 1
-    s, pol = G.make_solver(c)
-    args = []
-    orig = pol.update
 
-    def wrap(v):
-        args.append(v)
-        return orig(v)
+    def advance():
+        s, pol = G.make_solver(c)
+        args = []
+        orig = pol.update
 
-    pol.update = wrap
-    try:
+        def wrap(v):
+            args.append(v)
+            return orig(v)
+
+        pol.update = wrap
         for _ in range(at + 1):
             s.step()
-    except Exception:  # noqa: BLE001
-        return None
-    pol.update = orig
-    v = args[-1]
+        pol.update = orig
+        return pol, args[-1]
+
     Q = np.asarray(case["Q"], dtype=np.float64)
     n2 = Q.shape[0]
-    cands = [np.eye(n2)[i] for i in range(n2)] + [np.ones(n2), np.arange(1, n2 + 1, dtype=np.float64)]
+    cands = [np.ones(n2), np.arange(1, n2 + 1, dtype=np.float64)] + [np.eye(n2)[i] for i in range(n2)]
     for d in cands:
         curv = float(d @ Q @ d)
         if curv <= 1e-9:
             continue
+        try:
+            pol, v = advance()  # a fresh replay of the history for every probing direction
+        except Exception:  # noqa: BLE001
+            return None
         dd = d[: n2 // 2] + 1j * d[n2 // 2:] if case["complex"] else d
         vp = v + snp.array(dd)
         L = float(np.asarray(pol.update(vp)))
@@ -311,8 +315,15 @@ def oracle_memory(case):
             if l1 is None or not _rel(l1, want1, 16, 1e-9):
                 return {"why": "adaptive BB: a probing call after this step does not store the documented Lbb1 of (v, v+d): memory is stale",
                         "after_step": at, "d": d.tolist(), "Lbb1": l1, "documented": want1}
-        return None
-    return None
+            l2 = float(np.asarray(pol.Lbb2prev)) if pol.Lbb2prev is not None else None
+            if l2 is None or not _rel(l2, want, 16, 1e-9):
+                return {"why": "adaptive BB: a probing call after this step does not store the documented Lbb2 = <dg,dg>/<dx,dg> of (v, v+d)",
+                        "after_step": at, "d": d.tolist(), "Lbb2": l2, "documented": want, "Lbb1": l1}
+            wantL = want if want1 / want < case["policy"]["kappa"] else want1
+            if abs(want1 / want - case["policy"]["kappa"]) > 1e-9 and not _rel(L, wantL, 16, 1e-9):
+                return {"why": "adaptive BB: a probing call after this step does not return the kappa rule on the ratios of (v, v+d)",
+                        "after_step": at, "d": d.tolist(), "L": L, "documented": wantL}
+    return oracle({k: v for k, v in case.items() if k != "at_step"})
 
 
 # --------------------------------------------------------------------------
@@ -336,7 +347,7 @@ def check_case(ctx, model, case, origin="gen"):
     def bad(op, i, impl, mod, known=None, note=""):
         nonlocal nbad
         nbad += 1
-        ctx.disagree(op, {**light, "at_step": i}, impl, mod, oracle=oracle_memory if op == "stepsize.memory" else oracle,
+        ctx.disagree(op, {**light, "at_step": i}, impl, mod, oracle=oracle_memory if op in ("stepsize.memory", "stepsize.abb") else oracle,
                      known_id=known, note=note)
 
     # ---- fed tie --------------------------------------------------------------
